@@ -8,4 +8,5 @@ Out == SetToSeq({[found |-> c.found, bl |-> SetToSeq(c.bl), al |-> SetToSeq(c.al
                   code |-> SetToSeq(ProfileNames(c.found, c.bl, c.al))] : c \in {x \in Cases : Disjoint(x)}})
 ASSUME JsonSerialize(OutFile, Out)
 ASSUME AlgebraOK
+ASSUME OutputIsTheProfile
 =============================================================================
